@@ -109,6 +109,12 @@ func (d *SnapDriver) checkMountsResult(ctx context.Context, t *simrt.Task, what,
 			}
 		}
 	}
+	if err != nil && !d.Faulty && !failedCheck && errClass(err) == "error" && what != "Mounts" {
+		// without disk faults a Prepare / View ends in one of the documented outcomes: it succeeds, the key
+		// or target exists, the parent is missing or unusable, or a remote layer is unavailable
+		d.S.Fail("create-failed", "%s(%s) failed although no fault was injected and no connectivity check failed: %v", what, key, scrub(err.Error()))
+		return false
+	}
 	if err != nil {
 		if failedCheck && !errdefs.IsUnavailable(err) && !d.Faulty {
 			d.S.Fail("check-failure-not-unavailable", "%s(%s): a connectivity check of a remote layer in the chain failed but the call failed with %q instead of Unavailable", what, key, err)
@@ -259,6 +265,16 @@ func (d *SnapDriver) PrepareTarget(ctx context.Context, t *simrt.Task, key, pare
 		d.Counters["prepare_target_error"]++
 		d.checkMountsResult(ctx, t, "Prepare", key, true, nil, err, evs)
 	}
+}
+
+// scrub removes unseeded path components (run directory, temp names) from an error text.
+func scrub(m string) string {
+	for _, f := range strings.Fields(m) {
+		if strings.Contains(f, "/snapshots/") {
+			m = strings.ReplaceAll(m, f, RelSnap(strings.TrimRight(f, ":")))
+		}
+	}
+	return m
 }
 
 func errClass(err error) string {
